@@ -131,6 +131,8 @@ def h_listen_add(kind):
         yielded = w.count("yield") > 0
         eng.cover(f"exit:{kind_}:{yielded}")
         ob = eng.oblige(f"{U}/post.I_listen", tb.I_listen())
+        if ob.status == "refuted" and w.count(f"{kind}.register-refused") > 0:
+            ob.witness = {"signature": "table-entry-after-refused-registration"}
         if ob.status == "refuted" and yielded:
             ob.witness = {"signature": "table-entry-without-listener-after-cancelled-subscribe", "mode": "cancel"}
             try:
@@ -145,6 +147,11 @@ def h_listen_add(kind):
             if n_after is not None and n_after >= 2 and listed is False:
                 # another subscriber set the topic up while this one was suspended, and this one subscribed again
                 ob.witness = {"signature": "second-listener-for-a-topic-subscribed-meanwhile", "mode": "two-subscribers"}
+        if kind_ == "exc" and w.count(f"{kind}.register-refused") > 0:
+            # the dependency refused the registration: its error goes to the caller, and (post.I_listen above) the table lists
+            # nothing that has no listener - otherwise a later subscriber of the same id is never registered and its removal fails
+            ob2 = eng.oblige(f"{U}/post.refused-registration-propagates", val.cls.name == "ValueError")
+            return
         if kind_ == "exc":
             ob = eng.oblige(f"{U}/post.only-cancellation-escapes", val.cls.name == "CancelledError" and yielded)
             if ob.status == "refuted" and yielded:
@@ -191,6 +198,8 @@ def h_listen_del(kind):
 
 def replay_mqtt_window(w):
     from replay.native import run_native
+    if w.get("signature") == "table-entry-after-refused-registration":
+        return run_native("c09_webhook_id_taken", w)
     return run_native("c09_mqtt_subscribe_window", w)
 
 
@@ -207,7 +216,7 @@ def harnesses():
                                   replay=replay_notify_del, max_paths=20000, forced={"order": [oa, od]}))
     for kind, path in (("Event", EV_PY), ("Mqtt", MQ_PY), ("Webhook", WH_PY)):
         hs.append(Harness(f"{kind}.notify_add", h_listen_add(kind), units=[(path, f"{kind}.notify_add")],
-                          replay=replay_mqtt_window if kind == "Mqtt" else None))
+                          replay=replay_mqtt_window if kind in ("Mqtt", "Webhook") else None))
         hs.append(Harness(f"{kind}.notify_del", h_listen_del(kind), units=[(path, f"{kind}.notify_del")]))
     hs.append(Harness("TrigInfo.stop", h_trig_stop, units=[(T_PY, "TrigInfo.stop")]))
     hs.append(Harness("TrigInfo.trigger_watch#prologue", h_trig_prologue, units=[(T_PY, "TrigInfo.trigger_watch")]))
